@@ -64,6 +64,9 @@ package main
 //@   ensures len(a.Files) == old(len(a.Files)) ==> sameSlice(a.Comment, old(a.Comment))
 //@   ensures len(a.Files) == old(len(a.Files)) + 1 && gNQ ==> len(a.Comment) >= len(filename) + 1 && at(a.Comment, hi(a.Comment)-1) == '\n' && matchAt(a.Comment, hi(a.Comment) - 1 - len(filename), filename)
 //@   at call filepath.ToSlash#1: requires sameStr(path, filename)
+//@   at call strings.TrimPrefix#1: requires sameStr(s, path) && len(prefix) == len(dir) + 1 && matchAt(prefix, lo(prefix), dir) && at(prefix, hi(prefix)-1) == '/'
+//@   at call strings.TrimPrefix#1: bind gRel = r
+//@   at call filepath.ToSlash#1: requires sameStr(path, gRel)
 //@   ensures old(err) == nil && sid(path) == sid(dir) ==> r == nil
 
 // main (partial contract: only the clause below is proved): the tree is walked from the
